@@ -14,6 +14,9 @@
 (* eligible unelected entity has strictly more stake than an elected one    *)
 (* unless the limits explain it; voting power non-decreasing in stake;      *)
 (* previous set + updates = newly elected set.                              *)
+(* Runtime committees (when the harness records them): members eligible,    *)
+(* exact sizes or no committee, per-entity limit, minimum pool size, no     *)
+(* duplicates, no stale committee of an active runtime (Committee.tla).     *)
 (***************************************************************************)
 EXTENDS Integers, Sequences, FiniteSets, FiniteSetsExt, TLC, Json
 
@@ -53,6 +56,62 @@ Eligible(n, I) ==
     /\ n.ent \in DOMAIN I.entities
     /\ I.entities[n.ent].escrow >= ClaimTotal(n.ent, I)
 
+(* ---- runtime committees (the clauses CM1-CM5 of Committee.tla, on the real election's recorded input and output) ---- *)
+HasF(r, f) == f \in DOMAIN r
+CommitteesOf(ev) == IF HasF(ev, "committees") THEN SeqSet(ev.committees) ELSE {}
+RuntimesOf(I) == IF HasF(I, "runtimes") THEN SeqSet(I.runtimes) ELSE {}
+
+StakeOK(e, I) == e \in DOMAIN I.entities /\ I.entities[e].escrow >= ClaimTotal(e, I)
+
+(* isSuitableExecutorWorker + the stake and validator-set pre-filters, recomputed from the raw records *)
+CEligible(n, rt, role, I, valEnts) ==
+    /\ n.compute /\ ~n.frozen /\ n.exp >= I.epoch
+    /\ StakeOK(n.ent, I)
+    /\ rt.ver >= 0
+    /\ \E x \in SeqSet(n.rts) : x.id = rt.id /\ x.ver = rt.ver /\ ~x.tee
+    /\ rt.id \notin SeqSet(n.susp)
+    /\ (rt.cons[role].vs => n.ent \in valEnts)
+
+PoolSize(rt, role, I, valEnts) ==
+    LET el == {n \in SeqSet(I.nodes) : CEligible(n, rt, role, I, valEnts)}
+        mx == rt.cons[role].max
+        per(e) == Cardinality({n \in el : n.ent = e})
+    IN  FoldSet(LAMBDA e, t : t + (IF mx > 0 /\ per(e) > mx THEN mx ELSE per(e)), 0, {n.ent : n \in el})
+
+CommitteeClauses(ev, I, valEnts) ==
+    LET cs == CommitteesOf(ev)
+        rts == RuntimesOf(I)
+        ns == SeqSet(I.nodes)
+        rtOf(c) == CHOOSE r \in rts : r.id = c.rt
+        fresh == {c \in cs : c.valid_for = ev.epoch}
+        mem(c, role) == {i \in DOMAIN c.members : c.members[i].role = role}
+        size(rt, role) == IF role = "worker" THEN rt.gs ELSE rt.bs
+        roles == {"worker", "backup"}
+    IN <<
+        <<\A c \in fresh : \E r \in rts : r.id = c.rt /\ r.compute,
+          "a committee was elected for a runtime that is not an active compute runtime">>,
+        <<\A c \in cs : (\E r \in rts : r.id = c.rt) => c.valid_for = ev.epoch,
+          "an active runtime keeps a committee of an earlier epoch after an election">>,
+        <<\A c \in fresh : (\E r \in rts : r.id = c.rt /\ ~r.tee) =>
+             \A i \in DOMAIN c.members : \E n \in ns : n.id = c.members[i].id /\ CEligible(n, rtOf(c), c.members[i].role, I, valEnts),
+          "a committee member is not an eligible node (role, runtime version, expiry, freeze, suspension, entity stake)">>,
+        <<\A c \in fresh : (\E r \in rts : r.id = c.rt) =>
+             \A role \in roles : Cardinality(mem(c, role)) = size(rtOf(c), role),
+          "a committee does not have exactly the configured number of workers and backup workers">>,
+        <<\A c \in fresh : (\E r \in rts : r.id = c.rt) =>
+             \A role \in roles : rtOf(c).cons[role].max > 0 =>
+                 \A e \in {n.ent : n \in ns} :
+                     Cardinality({i \in mem(c, role) : \E n \in ns : n.id = c.members[i].id /\ n.ent = e}) <= rtOf(c).cons[role].max,
+          "an entity has more committee members in a role than MaxNodes allows">>,
+        <<\A c \in fresh : (\E r \in rts : r.id = c.rt /\ ~r.tee) =>
+             \A role \in roles : size(rtOf(c), role) > 0 => PoolSize(rtOf(c), role, I, valEnts) >= rtOf(c).cons[role].minp,
+          "a committee was elected although a role's candidate pool is below MinPoolSize">>,
+        <<\A c \in fresh : \A role \in roles :
+             Cardinality({c.members[i].id : i \in mem(c, role)}) = Cardinality(mem(c, role)),
+          "a node was elected twice into the same role">>,
+        <<\A c, d \in cs : (c.rt = d.rt /\ c.kind = d.kind) => c = d, "two committees of the same kind for one runtime">>
+       >>
+
 TrOut ==
     /\ Is("elect_out")
     /\ haveInp
@@ -76,7 +135,7 @@ TrOut ==
               "the validator set is not full although an eligible entity was left out">>,
             <<\A v, w \in vs : stake(v.ent) >= stake(w.ent) => v.power >= w.power, "voting power is not non-decreasing in stake">>,
             <<\A v \in vs : v.power > 0, "elected validator without voting power">>
-          >>)
+          >> \o CommitteeClauses(Ev, I, elEnts))
        /\ pending' = {<<v.cons, v.power>> : v \in vs} /\ havePending' = TRUE
     /\ nElections' = nElections + 1
     /\ UNCHANGED <<cur, inp, haveInp>>
